@@ -18,6 +18,18 @@ def publish (s : St) (p : Nat) (act : Option Ev) : St × String :=
   let mine := s4.delivered.filter (·.1 = p)
   (s4, showD (mine.filter (·.2.1 = 0)) ++ "|" ++ showD (sortH (mine.filter (·.2.1 ≠ 0))))
 
+/-- did publication `p` reach an application handler? (then one of them performs the re-entrant action) -/
+def hadApp (s : St) (p : Nat) : Bool :=
+  match findPub s p with | some q => q.snap.any (·.1 ≠ 0) | none => false
+
+/-- line protocol of the bus model (C15)
+    `sub l h` / `unsub l h`               → `ok`
+    `pub p`                               → `<core deliveries in order>|<application deliveries sorted>`
+    `pubsub p l h` / `pubunsub p l h`     → same; the first core handler of p (un)subscribes (l,h) while handling
+    `pubapp p sub l h` / `pubapp p unsub l h` → same; an application handler of p (if p reaches one) does it
+    `pubapp p pub p2`                     → `<answer of p>;<answer of the nested publication p2>` (`-` if no
+                                             application handler was reached and nothing was published)
+    `handlers`                            → the handler list in order -/
 def answer (s : St) (ws : List String) : St × String :=
   match ws with
   | ["sub", l, h] => (step s (.subscribe (l.toNat!, h.toNat!)), "ok")
@@ -25,6 +37,18 @@ def answer (s : St) (ws : List String) : St × String :=
   | ["pub", p] => publish s p.toNat! none
   | ["pubsub", p, l, h] => publish s p.toNat! (some (.subscribe (l.toNat!, h.toNat!)))
   | ["pubunsub", p, l, h] => publish s p.toNat! (some (.unsubscribe (l.toNat!, h.toNat!)))
+  | ["pubapp", p, "sub", l, h] =>
+    let (s1, out) := publish s p.toNat! none
+    (if hadApp s1 p.toNat! then step s1 (.subscribe (l.toNat!, h.toNat!)) else s1, out)
+  | ["pubapp", p, "unsub", l, h] =>
+    let (s1, out) := publish s p.toNat! none
+    (if hadApp s1 p.toNat! then step s1 (.unsubscribe (l.toNat!, h.toNat!)) else s1, out)
+  | ["pubapp", p, "pub", p2] =>
+    let (s1, out) := publish s p.toNat! none
+    if hadApp s1 p.toNat! then
+      let (s2, out2) := publish s1 p2.toNat! none
+      (s2, out ++ ";" ++ out2)
+    else (s1, out ++ ";-")
   | ["handlers"] => (s, if s.handlers.isEmpty then "." else ",".intercalate (s.handlers.map fun h => s!"{h.1}/{h.2}"))
   | _ => (s, "bad-op")
 
